@@ -531,6 +531,15 @@ def corpus():
          {'k': 'cat', 'src': [3, 7], 'dim': 1}, {'k': 'unsqueeze', 'src': 8, 'dim': 2, 'form': 'fn'}, {'k': 'flatten', 'src': 9, 'start': 1, 'form': 'fn'},
          {'k': 'linear', 'src': 10, 'cin': 85, 'cout': 2, 'bias': True}]
     out.append(('nested-cat-of-flatten-flatten', {'dim': 2, 'nodes': n}))
+    # function-form squeeze of the (size one) FEATURES axis after a one-channel conv: axis 2 becomes the features
+    n = [{'k': 'in', 'shape': [2, 5, 5]}, _c2(0, 2, 1, k=1), {'k': 'squeeze', 'src': 1, 'dim': 1, 'form': 'fn'},
+         {'k': 'conv1d', 'src': 2, 'cin': 5, 'cout': 3, 'ks': 1, 'dil': 1, 'stride': 1, 'groups': 1, 'bias': True},
+         {'k': 'flatten', 'src': 3, 'start': 1, 'form': 'fn'}, {'k': 'linear', 'src': 4, 'cin': 15, 'cout': 2, 'bias': True}]
+    out.append(('squeeze-features-axis', {'dim': 2, 'nodes': n}))
+    # hand-placed PIT layers, one of them also named in exclude_names (autoconvert on): it stays a PIT layer and is exported
+    n = [I, dict(_c2(0, 3, 4), pit=1, pit_frozen=False), {'k': 'relu', 'src': 1}, dict(_c2(2, 4, 3), pit=3, pit_frozen=False), {'k': 'relu', 'src': 3},
+         {'k': 'gap2d', 'src': 4}, {'k': 'flatten', 'src': 5, 'start': 1, 'form': 'fn'}, {'k': 'linear', 'src': 6, 'cin': 3, 'cout': 2, 'bias': True, 'pit': 7, 'pit_frozen': True}]
+    out.append(('placed-pit-layer-listed', {'dim': 2, 'nodes': n, 'exclude_names': [3], 'autoconvert': True}))
     for _, s in out:
         s['out'] = [len(s['nodes']) - 1]
     return out
@@ -555,6 +564,11 @@ def classes_of(spec):
     out = []
     iscat = lambda j: nodes[j]['k'] == 'cat' and nodes[j]['dim'] == 1
     fixed_w = lambda j: nodes[j]['k'] == 'in' or (nodes[j]['k'] in LAYER and not is_dw(nodes[j]) and CG.excluded(spec, j)) or (nodes[j]['k'] in LAYER and not is_dw(nodes[j]) and not spec.get('autoconvert', True) and nodes[j].get('pit') is None)
+    for i, nd in enumerate(nodes):
+        if nd.get('pit') is not None and CG.listed(spec, i):
+            out.append('placed-pit-layer-listed-in-exclude')
+        if nd['k'] == 'squeeze' and (nd['dim'] if nd['dim'] >= 0 else len(sh[nd['src']]) + 1 + nd['dim']) == 1:
+            out.append('squeeze-of-features-axis')
     for i, nd in enumerate(nodes):
         d = nd.get('sdim') if nd['k'] == 'cat' else nd.get('sstart') if nd['k'] == 'flatten' else nd.get('dim') if nd['k'] in ('squeeze', 'unsqueeze') else None
         if d is not None and d < 0 and not (nd['k'] == 'squeeze' and d == -1) and not (nd['k'] == 'unsqueeze' and d == -1):
@@ -680,7 +694,7 @@ def judge(spec, ob):
     return bad
 
 
-PRIORITY = ['axis-from-the-end:time-cat', 'axis-from-the-end:features-cat', 'axis-from-the-end:flatten', 'axis-from-the-end:squeeze', 'axis-from-the-end:unsqueeze', 'nested-flatten-calculators', 'squeeze-trailing-axis-of-4d', 'cat-repeats-a-tensor', 'depthwise-after-cat', 'add-with-cat-operand', 'cat-of-two-fixed-width-tensors',
+PRIORITY = ['placed-pit-layer-listed-in-exclude', 'squeeze-of-features-axis', 'axis-from-the-end:time-cat', 'axis-from-the-end:features-cat', 'axis-from-the-end:flatten', 'axis-from-the-end:squeeze', 'axis-from-the-end:unsqueeze', 'nested-flatten-calculators', 'squeeze-trailing-axis-of-4d', 'cat-repeats-a-tensor', 'depthwise-after-cat', 'add-with-cat-operand', 'cat-of-two-fixed-width-tensors',
             'cat-of-two-flattened-tensors', 'excluded-layer-next-to-searchable']
 
 
@@ -889,7 +903,8 @@ def run(ctx):
                 ctx.corr += 1
                 if mc != ic:
                     soft.append(('calculator terms', CG.describe(spec), {'model': mc, 'impl': ic}))
-                if auto:
+                placed = any(nd.get('pit') is not None for nd in spec['nodes'])
+                if auto and not placed:
                     mmk = {int(i): (None if v is None else (int(v[1][0]), bool(v[1][1]))) for i, v in maskv}
                     imk = {i: (None if v is None else (v[0], v[1])) for i, v in ob['maskers'].items()}
                     ctx.corr += 1
@@ -914,7 +929,7 @@ def run(ctx):
                     ctx.corr += 1
                     if (shp is True) != (r['export'] == 'ok' and r.get('export_forward') == 'ok'):
                         mm('shape_ok vs exported network runs', spec, {'model': shp, 'impl': (r['export'], r.get('export_forward'))})
-                    if snd is not True or (auto and cons is not True):
+                    if snd is not True or (auto and not placed and cons is not True):
                         mm('sound_b / consistent_b (premises of the theorems)', spec, {'sound_b': snd, 'consistent_b': cons, 'masks': r['masks']})
             # MPS stream: the same calculators with every conv / linear searchable; features and ground truth only
             mex = []
